@@ -155,6 +155,8 @@ type Socket struct {
 	sync      uint64   // race detector sync word (mirrors internal/poll.fdMutex)
 	filled    [][]byte // caller buffers the kernel wrote into (C17)
 	World     any      // free slot for the world model
+	WTask     int      // task and step of the goroutine that wrote to the socket last (tcp)
+	WStep     int
 }
 
 func (k *Socket) Local() netip.AddrPort  { return k.local }
@@ -669,6 +671,11 @@ func (s *Sim) doWrite(r *req) {
 	}
 	s.logG(r.g, Ev{Kind: "tcp-send", Sock: k.ID, Src: k.local.String(), Dst: k.remote.String(), N: len(r.buf), Data: r.buf})
 	s.reply(r, resp{n: len(r.buf)})
+	// who is writing: a connection kept open across calls carries the requests of later steps too
+	k.WTask, k.WStep = k.Task, k.Step
+	if r.g != nil {
+		k.WTask, k.WStep = r.g.Task, s.curStep[r.g.Task]
+	}
 	s.cfg.World.TCPSend(s, k, r.buf)
 }
 
